@@ -25,6 +25,7 @@ import (
 	pb "github.com/prometheus/alertmanager/nflog/nflogpb"
 
 	"verifharness/nfrace"
+	"verifharness/sysrun"
 	"verifharness/vh"
 )
 
@@ -67,6 +68,9 @@ type Op struct {
 type Case struct {
 	Retention int64 `json:"retention"`
 	Ops       []Op  `json:"ops"`
+	// Sys != nil: a whole-instance scenario (several integrations per receiver) for the per-integration identity of the
+	// log entries as the notification pipeline uses them (sys_test.go)
+	Sys *sysrun.Scenario `json:"sys,omitempty"`
 }
 
 var receivers = []*pb.Receiver{
@@ -632,7 +636,9 @@ func TestCheck(t *testing.T) {
 		if err := vh.LoadReplayCase(env.Replay, &c); err != nil {
 			t.Fatal(err)
 		}
-		cases = append(cases, c)
+		if c.Sys == nil {
+			cases = append(cases, c)
+		}
 	} else {
 		r := vh.NewRand(env.Seed)
 		n := env.N(600, 10)
@@ -672,6 +678,7 @@ func TestCheck(t *testing.T) {
 	if err := run.Finish("random histories of Log/Merge/GC/Query/Reload over 2 group keys x 2 receivers under synctest virtual time; after every op all 4 keys are queried; non-trivial = has a Merge and (a Log or a GC that removed something); distinct by full history text"); err != nil {
 		t.Fatal(err)
 	}
+	sysPart(t, env)
 }
 
 func joinLines(xs []string) string {
